@@ -9,15 +9,52 @@ open Py Rx
 
 /-! ## reader -/
 
-theorem Reader.cursor_ok (r : Reader) : Ok r.cursor := by
-  intro s hI; unfold Reader.cursor; hoare
-theorem Reader.setCursor_ok (r : Reader) (v : Str) : Ok (r.setCursor v) := by
-  intro s hI; unfold Reader.setCursor; hoare
-theorem Reader.unescape_ok (r : Reader) : Ok r.unescape := by
-  have h1 := Reader.cursor_ok; have h2 := Reader.setCursor_ok
-  intro s hI; unfold Reader.unescape; hoare
-theorem Reader.insertExpansion_ok (r : Reader) (l : List Str) (d : Nat) : Ok (r.insertExpansion l d) := by
-  intro s hI; unfold Reader.insertExpansion; hoare
+/-- postconditions `Inv s' ∧ R a` whose parts are in the context -/
+macro "post_leaf" : tactic => `(tactic| first
+  | exact ⟨by assumption, by assumption⟩
+  | exact ⟨by assumption, fun _ => by assumption⟩
+  | exact ⟨by assumption, fun h => by cases h⟩)
+
+theorem not_true_false (b : Bool) (h : ¬ b = true) : b = false := by cases b <;> simp_all
+
+/-- `Inv s ∧ ItemRes (none, r)` -/
+macro "item_none_leaf" : tactic => `(tactic| (refine ⟨by assumption, ?_, by assumption⟩; intro _ h; cases h))
+
+/-- the reader is not at end of input -/
+@[reducible] def Reader.More (r : Reader) : Prop := ¬ r.eof = true
+
+theorem Reader.more_iff (r : Reader) : r.More ↔ r.rest ≠ [] := by
+  unfold Reader.More Reader.eof
+  cases r.rest <;> simp
+
+/-- `reader.cursor` away from end of input -/
+theorem pc_cursor (r : Reader) (h : r.More) (s : Session) : ∃ a, r.cursor.run s = .ok (a, s) := by
+  rw [Reader.more_iff] at h
+  unfold Reader.cursor
+  split
+  · exact ⟨_, rfl⟩
+  · next he => exact absurd he h
+
+theorem pc_unescape (r : Reader) (h : r.More) (s : Session) : ∃ a, r.unescape.run s = .ok (a, s) ∧ a.More := by
+  rw [Reader.more_iff] at h
+  unfold Reader.unescape Reader.cursor Reader.setCursor
+  cases hr : r.rest with
+  | nil => exact absurd hr h
+  | cons c t =>
+    refine ⟨{ r with rest := c.drop 1 :: t, escaped := some r.pos }, ?_, ?_⟩
+    · rfl
+    · rw [Reader.more_iff]; simp
+
+theorem pc_insertExpansion (r : Reader) (l : List Str) (d : Nat) (h : r.More) (s : Session) :
+    ∃ a, (r.insertExpansion l d).run s = .ok (a, s) ∧ a.2.More := by
+  have h' := (Reader.more_iff r).mp h
+  unfold Reader.insertExpansion
+  simp only []
+  split
+  · exact ⟨_, rfl, by rw [Reader.more_iff]; exact h'⟩
+  · cases hr : r.rest with
+    | nil => exact absurd hr h'
+    | cons c t => exact ⟨_, rfl, by rw [Reader.more_iff]; simp⟩
 
 theorem Reader.readTo_go_ok (r : Reader) (p : Pat) (hp : p.ngroups = 0 ∨ p.Sets 1 = true) :
     ∀ ls pos acc, Ok (Reader.readTo.go r p ls pos acc) := by
@@ -280,9 +317,10 @@ section
 variable (rec : Rec) (env : Env) (hs : ∀ x, Ok (rec.spans x))
 include hs
 
-theorem verifyMacroLine_ok (mt : Match) (r : Reader) : Ok (verifyMacroLine rec env mt r) := by
-  have hr := macrosRender_ok rec env hs
-  have hi := Reader.insertExpansion_ok
+theorem verifyMacroLine_ok (mt : Match) (r : Reader) (hr : r.More) :
+    OkR (verifyMacroLine rec env mt r) (fun res => res.2.More) := by
+  have hm := macrosRender_ok rec env hs
+  have hi := fun l d => pc_insertExpansion r l d hr
   intro s hI
   unfold verifyMacroLine
   hoare
@@ -352,32 +390,45 @@ theorem lineDefs_ok : ∀ d ∈ Gen.lineDefs, LineDefOk d := by
   · have := List.all_eq_true.mp Facts.lineDefs_minLen d hd
     simpa using this
 
-theorem lineblocksGo_ok (allowed : List Str) : ∀ defs, (∀ d ∈ defs, LineDefOk d) → ∀ r w, Ok (lineblocksGo rec env allowed defs r w) := by
-  have h1 := verifyMacroLine_ok rec env hs
+/-- a rule set that did not take the line leaves a reader that is not at end of input -/
+@[reducible] def StillMore {β : Type} (res : Bool × Reader × β) : Prop := res.1 = false → res.2.1.More
+
+theorem lineblocksGo_ok (allowed : List Str) : ∀ defs, (∀ d ∈ defs, LineDefOk d) → ∀ r w, r.More →
+    OkR (lineblocksGo rec env allowed defs r w) StillMore := by
   have h2 := battrParse_ok rec env hs
-  have h3 := Reader.cursor_ok
-  have h4 := Reader.unescape_ok
+  have h3 := pc_cursor
+  have h4 := pc_unescape
   have h5 := injectHtmlAttributes_ok
   intro defs
   induction defs with
-  | nil => intro _ r w s hI; unfold lineblocksGo; hoare
+  | nil => intro _ r w hr s hI; unfold lineblocksGo; hoare
   | cons d rest ih =>
-    intro hd r w
+    intro hd r w hr
+    have h1 := fun mt => verifyMacroLine_ok rec env hs mt r hr
     have ih' := ih (fun x hx => hd x (List.mem_cons_of_mem _ hx))
     have hdo := hd d List.mem_cons_self
     have hof : ∀ cur mt, d.pat.search cur = some mt → mt.Of d.pat := fun _ _ h => Pat.search_of (Nat.zero_le _) h
     have hlf : ∀ mt, mt.Of d.pat → Ok (lineFilter rec env d mt) := fun mt h => lineFilter_ok rec env hs d mt h hdo.1.1 hdo.1.2
     intro s hI
     unfold lineblocksGo
-    hoare
-    -- `match[0][0]`: no line-block pattern matches the empty string
-    exact absurd (by assumption) (whole_ne_nil (hof _ _ (by assumption)) hdo.2)
+    hoare_go
+    all_goals (try (first | inv_leaf | assumption))
+    all_goals first
+      -- `match[0][0]`: no line-block pattern matches the empty string
+      | exact absurd (by assumption) (whole_ne_nil (hof _ _ (by assumption)) hdo.2)
+      | post_leaf
+      | trace_state
 
-theorem lineblocksRender_ok (r : Reader) (w : Writer) (allowed : List Str) : Ok (lineblocksRender rec env r w allowed) := by
+theorem lineblocksRender_ok (r : Reader) (w : Writer) (allowed : List Str) (hr : r.More) :
+    OkR (lineblocksRender rec env r w allowed) StillMore := by
   have h := lineblocksGo_ok rec env hs allowed Gen.lineDefs lineDefs_ok
   intro s hI
   unfold lineblocksRender
-  hoare
+  hoare_go
+  all_goals (try (first | inv_leaf | assumption))
+  all_goals first
+    | post_leaf
+    | trace_state
 
 end
 
@@ -519,15 +570,15 @@ theorem htmlVerify_ok (mt : Match) (h : 2 ≤ mt.ngroups) : Ok (htmlVerify mt) :
   unfold htmlVerify
   hoare
 
-theorem delimitedGo_ok (allowed : List Str) : ∀ defs, (∀ d ∈ defs, BlockDefOk d) → ∀ r w,
-    Ok (delimitedGo rec env allowed defs r w) := by
-  have h3 := Reader.cursor_ok
-  have h4 := Reader.unescape_ok
+theorem delimitedGo_ok (allowed : List Str) : ∀ defs, (∀ d ∈ defs, BlockDefOk d) → ∀ r w, r.More →
+    OkR (delimitedGo rec env allowed defs r w) StillMore := by
+  have h3 := pc_cursor
+  have h4 := pc_unescape
   intro defs
   induction defs with
-  | nil => intro _ r w s hI; unfold delimitedGo; hoare
+  | nil => intro _ r w hr s hI; unfold delimitedGo; hoare
   | cons d rest ih =>
-    intro hd r w
+    intro hd r w hr
     have ih' := ih (fun x hx => hd x (List.mem_cons_of_mem _ hx))
     have hdo := hd d List.mem_cons_self
     have hof : ∀ cur mt, d.openMatch.search cur = some mt → mt.Of d.openMatch := fun _ _ h => Pat.search_of (Nat.zero_le _) h
@@ -562,13 +613,20 @@ theorem delimitedGo_ok (allowed : List Str) : ∀ defs, (∀ d ∈ defs, BlockDe
       | (by_cases hp : (d.name == "paragraph".toList) = true
          · rw [if_pos hp]; rfl
          · exact absurd (by assumption) (hwh (by simpa using hp) _ (hof _ _ (by assumption))))
+      | post_leaf
+      | trace_state
 
-theorem delimitedRender_ok (r : Reader) (w : Writer) (allowed : List Str) : Ok (delimitedRender rec env r w allowed) := by
+theorem delimitedRender_ok (r : Reader) (w : Writer) (allowed : List Str) (hr : r.More) :
+    OkR (delimitedRender rec env r w allowed) StillMore := by
   have hgo := delimitedGo_ok rec env hs hdoc allowed
   have hbo := @Inv.blockOk
   intro s hI
   unfold delimitedRender
-  hoare
+  hoare_go
+  all_goals (try (first | inv_leaf | assumption))
+  all_goals first
+    | post_leaf
+    | trace_state
 
 /-! ## lists -/
 
@@ -586,16 +644,20 @@ theorem listDefs_ok : ∀ d ∈ Gen.listDefs, listDefOk d = true := by
 /-- an item carries a match of its definition's pattern -/
 def ItemInfo.Ok (item : ItemInfo) : Prop := item.mt.Of item.listdef.pat ∧ listDefOk item.listdef = true
 
+/-- what `matchItem` returns: an item of its definition (if any) and a reader that is not at end of input -/
+@[reducible] def ItemRes (res : Option ItemInfo × Reader) : Prop := (∀ item, res.1 = some item → item.Ok) ∧ res.2.More
+
 omit hs hdoc in
-theorem matchItem_go_ok : ∀ defs, (∀ d ∈ defs, listDefOk d = true) → ∀ r,
-    OkR (matchItem.go defs r) (fun res => ∀ item, res.1 = some item → item.Ok) := by
-  have h3 := Reader.cursor_ok
-  have h4 := Reader.unescape_ok
+theorem matchItem_go_ok : ∀ defs, (∀ d ∈ defs, listDefOk d = true) → ∀ r, r.More → OkR (matchItem.go defs r) ItemRes := by
+  have h3 := pc_cursor
+  have h4 := pc_unescape
   intro defs
   induction defs with
-  | nil => intro _ r s hI; unfold matchItem.go; hoare
+  | nil =>
+    intro _ r hr s hI; unfold matchItem.go; hoare_go
+    item_none_leaf
   | cons d rest ih =>
-    intro hd r
+    intro hd r hr
     have ih' := ih (fun x hx => hd x (List.mem_cons_of_mem _ hx))
     have hdo := hd d List.mem_cons_self
     have hof : ∀ cur mt, d.pat.search cur = some mt → mt.Of d.pat := fun _ _ h => Pat.search_of (Nat.zero_le _) h
@@ -613,25 +675,55 @@ theorem matchItem_go_ok : ∀ defs, (∀ d ∈ defs, listDefOk d = true) → ∀
       simp only [Bool.and_eq_true, decide_eq_true_eq] at hdo
       exact whole_ne_nil hmo hdo.2
     unfold matchItem.go
-    hoare
-    -- `match[0][0]`: no list pattern matches the empty string
-    · exact absurd (by assumption) (hwh _ (hof _ _ (by assumption)))
-    · exact ⟨by assumption, fun item h => by cases h; exact ⟨hof _ _ (by assumption), hdo⟩⟩
+    hoare_go
+    all_goals (try (first | inv_leaf | assumption))
+    all_goals first
+      -- `match[0][0]`: no list pattern matches the empty string
+      | exact absurd (by assumption) (hwh _ (hof _ _ (by assumption)))
+      | exact ⟨by assumption, by assumption⟩
+      | exact ⟨by assumption, by assumption, by assumption⟩
+      | item_none_leaf
+      | (refine ⟨by assumption, ?_, hr⟩
+         intro item h; cases h
+         unfold ItemInfo.Ok
+         exact ⟨hof _ _ (by assumption), hdo⟩)
+      | trace_state
+    · unfold ItemInfo.Ok
+      exact ⟨hof _ _ (by assumption), hdo⟩
 
 omit hs hdoc in
-theorem matchItem_ok (r : Reader) : OkR (matchItem r) (fun res => ∀ item, res.1 = some item → item.Ok) := by
+theorem matchItem_ok (r : Reader) (hr : r.More) : OkR (matchItem r) ItemRes := by
   have h := matchItem_go_ok Gen.listDefs listDefs_ok
   intro s hI
   unfold matchItem
-  hoare
+  hoare_go
+  all_goals (try (first | inv_leaf | assumption))
+  all_goals first
+    | exact ⟨by assumption, by assumption⟩
+    | exact ⟨by assumption, by assumption, by assumption⟩
+    | item_none_leaf
+    | trace_state
 
-theorem consumeBlockAttributes_ok : ∀ fuel blanks r w, Ok (consumeBlockAttributes rec env fuel blanks r w) := by
+/-- what `consumeBlockAttributes` returns: unless it reports end of input (-1) the reader is not at end of input -/
+@[reducible] def BlanksRes {β : Type} (res : Int × Reader × β) : Prop := res.1 ≠ -1 → res.2.1.More
+
+omit hdoc in
+theorem consumeBlockAttributes_ok : ∀ fuel blanks r w, OkR (consumeBlockAttributes rec env fuel blanks r w) BlanksRes := by
   have h1 := lineblocksRender_ok rec env hs
-  have h2 := Reader.cursor_ok
+  have h2 := pc_cursor
+  have hnb := not_true_false
   intro fuel
   induction fuel with
   | zero => intro b r w s hI; unfold consumeBlockAttributes; hoare
-  | succ n ih => intro b r w s hI; unfold consumeBlockAttributes; hoare
+  | succ n ih =>
+    intro b r w s hI; unfold consumeBlockAttributes
+    hoare_go
+    all_goals (try (first | inv_leaf | assumption))
+    all_goals first
+      | exact ⟨by assumption, by assumption⟩
+      | exact ⟨by assumption, fun h => absurd rfl h⟩
+      | (refine ⟨by assumption, fun _ => ?_⟩; solve_by_elim)
+      | trace_state
 
 /-- what the four mutually recursive list functions return as "next item" is again an item of its definition -/
 @[reducible] def NextOk {β : Type} (res : Option ItemInfo × β) : Prop := ∀ n, res.1 = some n → n.Ok
@@ -663,10 +755,13 @@ theorem lists_ok : ∀ fuel,
     (∀ r il al ad, OkR (renderItemLoop rec env fuel r il al ad) NextOk) := by
   have hia := injectHtmlAttributes_ok
   have hri := replaceInline_ok rec env hs
-  have hcb := consumeBlockAttributes_ok rec env hs hdoc
+  have hcb := consumeBlockAttributes_ok rec env hs
   have hmi := matchItem_ok
   have hdr := delimitedRender_ok rec env hs hdoc
-  have hcu := Reader.cursor_ok
+  have hcu := pc_cursor
+  have hnb := not_true_false
+  have hbl : ∀ bl : Int, ¬ (decide (bl ≥ 2) || bl == -1) = true → bl ≠ -1 := by
+    intro bl h hb; subst hb; simp at h
   have htext := @ItemInfo.Ok.text
   have hterm := @ItemInfo.Ok.term
   intro fuel
@@ -692,17 +787,24 @@ theorem lists_ok : ∀ fuel,
            solve_by_elim)
         | trace_state
 
-theorem listsRender_ok (fuel : Nat) (r : Reader) (w : Writer) : Ok (listsRender rec env fuel r w) := by
-  have hmi := matchItem_ok
+theorem listsRender_ok (fuel : Nat) (r : Reader) (w : Writer) (hr : r.More) :
+    OkR (listsRender rec env fuel r w) StillMore := by
+  have hmi := matchItem_ok r hr
   have hrl := (lists_ok rec env hs hdoc fuel).1
   intro s hI
   unfold listsRender
-  hoare
+  hoare_go
+  all_goals (try (first | inv_leaf | assumption))
+  all_goals first
+    | exact ⟨by assumption, fun _ => by assumption⟩
+    | exact ⟨by assumption, fun h => by cases h⟩
+    | trace_state
 
 theorem documentLoop_ok : ∀ fuel r w, Ok (documentLoop rec env fuel r w) := by
   have h1 := lineblocksRender_ok rec env hs
   have h2 := listsRender_ok rec env hs hdoc
   have h3 := delimitedRender_ok rec env hs hdoc
+  have hnb := not_true_false
   intro fuel
   induction fuel with
   | zero => intro r w s hI; unfold documentLoop; hoare
